@@ -164,6 +164,17 @@ def handle : P String := do
     let g : GTransfer := { muxer := some mOne, locals := [Transfer.ofProl prol trunc] }
     -- trunc_send / rest_send / prol_recv need a ghost process; prol_cancel must never be called
     if which < 3 ∧ g.sendAllowed then pure "RETURNED" else pure "ABORT"
+  | "cert" =>
+    -- certificates (hypotheses of C18.prolongation_exact / C18.truncation_prolongation_identity) of an `fe` case
+    skipCfg
+    let _ ← tok; let _ ← ratList
+    let _ ← tok; let _ ← ratList
+    let (m, _, _) ← dumpP
+    let d := m.toDump
+    let b (x : Bool) := if x then "1" else "0"
+    match (do let locs ← localProls d; let pd ← optAbort (prolDirect d locs); pure pd : Except Fail Mat) with
+    | .error e => pure (failStr e)
+    | .ok pd => pure s!"CERT {b (nestedB d)} {b (consB d pd)} {b (intB d)} {b (mapsB d)}"
   | "fe" =>
     skipCfg
     let _ ← tok; let x ← ratList
